@@ -31,7 +31,7 @@ def units(tier, seed):
     gs = _gscs()
     for k, eng in enumerate(shapes):
         for j, g in enumerate(gs if (tier == "thorough" and len(eng) < 3) else [gs[k % len(gs)], gs[(k + 2) % len(gs)]]):
-            descs.append(dict(engines=list(eng), gens=1 + (k + j) % 3, gsc=g, Mh=4, seed=s, levelshift=True,
+            descs.append(dict(engines=list(eng), gens=1 + (k + j) % 3, gsc=g, Mh=4, seed=s, levelshift=True, obj=("twofunnel", "plateau", "sphere_in", "const")[(k + j) % 4],
                               sprout={"kind": ("simple", "nbc")[(k + j) % 2], "L": 2}, hib=bool((k // 3) % 2),
                               lsc=[None] + [{"kind": "metaepoch", "m": 2}] * (len(eng) - 1)))
     us = [{"kind": "run", "descs": c} for c in chunks(descs, 12)]
